@@ -20,7 +20,12 @@ print("injector effect is exactly the documented one")
 def data(seed, n, as_df):
     rng = np.random.RandomState(seed)
     a = np.column_stack([rng.randn(n) * 3 + 1, rng.randn(n) - 2, rng.randint(0, 3, n).astype(float), rng.randint(0, 2, n).astype(float)])
+    if as_df == "int":
+        return pd.DataFrame(a, columns=INT_LABELS)        # integer labels that are NOT the positions
     return pd.DataFrame(a, columns=["a", "b", "cls", "grp"]) if as_df else a
+
+
+INT_LABELS = [3, 0, 7, 1]
 
 
 def arr(x):
@@ -30,12 +35,15 @@ def arr(x):
 def check(scn):
     import menelaus.injection as I
     name, as_df, lo, hi, seed, n, reuse = scn["inj"], scn["df"], scn["lo"], scn["hi"], scn["seed"], scn["n"], scn.get("reuse")
-    col = (lambda s, i: s if as_df else i)
+    col = (lambda s, i: INT_LABELS[i] if as_df == "int" else (s if as_df else i))
     inj = getattr(I, name)()
     if reuse:
         try:
             other = data(seed + 3, n, not as_df)
             c2 = (lambda s, i: s if not as_df else i)
+            if as_df == "int":
+                other = data(seed + 3, n, False)
+                c2 = (lambda s, i: i)
             if name == "FeatureSwapInjector":
                 inj(other, 0, 2, c2("a", 0), c2("b", 1))
             elif name == "FeatureShiftInjector":
@@ -125,7 +133,7 @@ def check(scn):
         groups = len(np.unique(A[:, 3]))
         if O.shape != ((ss // groups) * groups, 3):
             return "FeatureCoverInjector: result shape %r, expected %r" % (O.shape, ((ss // groups) * groups, 3))
-        if as_df and list(out.columns) != ["a", "b", "cls"]:
+        if as_df and list(out.columns) != (INT_LABELS[:3] if as_df == "int" else ["a", "b", "cls"]):
             return "FeatureCoverInjector: columns %r" % (list(out.columns),)
         rows = {tuple(r[:3]) for r in A}
         if any(tuple(r) not in rows for r in O):
@@ -213,8 +221,10 @@ def run(tier, seed, repo, focus=None):
     names = ["FeatureSwapInjector", "FeatureShiftInjector", "LabelSwapInjector", "LabelJoinInjector", "BrownianNoiseInjector",
              "LabelProbabilityInjector", "LabelDirichletInjector", "FeatureCoverInjector"]
     for name in names:
-        for as_df in (False, True):
+        for as_df in (False, True, "int"):
             windows = [(a, b) for a in range(n + 1) for b in range(a, n + 1)]
+            if as_df == "int":
+                windows = [(0, n), (2, 5), (3, 3)]
             if name == "FeatureCoverInjector":
                 windows = [(0, n)]
             for lo, hi in windows:
